@@ -130,6 +130,7 @@ impl ToTokens for Expansion {
         let error = quote! { derive_more::TryFromReprError<#repr_ty> };
 
         quote! {
+            #[allow(deprecated)] // omit warnings on deprecated fields/variants
             #[automatically_derived]
             impl #impl_generics derive_more::core::convert::TryFrom<#repr_ty>
              for #ident #ty_generics #where_clause {
